@@ -114,7 +114,7 @@ def main():
         t = run(["go", "test", "-overlay", ov, "-vet=off", "-count=1", "-timeout", "120s", pkg], cwd="/repo", env=dict(ENV, GOTOOLCHAIN="local"))
         tests = "pass" if t.returncode == 0 else ("BUILD-FAIL" if "build failed" in t.stdout or "cannot" in t.stdout and "FAIL" not in t.stdout else "fail")
         t0 = time.time()
-        c = run([os.path.join(ROOT, "check"), prop, "quick"], cwd=ROOT, env=dict(os.environ, VERIF_OVERLAY=ov, VERIF_SEED="1"))
+        c = run([os.path.join(ROOT, "check"), prop, "quick"], cwd=ROOT, env=dict(os.environ, VERIF_OVERLAY=ov, VERIF_SEED="1", VERIF_EVIDENCE_DIR=os.path.join(ROOT, ".work", "evidence-sens")))
         dt = time.time() - t0
         sigs = sorted(set(re.findall(r"VIOLATION property=\S+ replay=\S+ sig=(\S+)", c.stdout)))
         verdict = {0: "MISSED", 1: "detected", 2: "inconclusive"}.get(c.returncode, "rc=%d" % c.returncode)
